@@ -102,6 +102,7 @@ type PathResult struct {
 	asserts    map[string]*AssertStat
 	observe    []obsEntry
 	knownSeen  []string
+	where      string
 	witVec     map[string]int64
 	witObs     []string
 }
@@ -420,6 +421,7 @@ func (e *Exec) concretizeInt(t *Term, what string) int64 {
 	e.newDecisions++
 	var vals []int64
 	e.sol.Push()
+	e.sol.Prepare([]*Term{t})
 	for {
 		r := e.sol.Check()
 		if r == Unknown {
@@ -538,6 +540,7 @@ func (e *Exec) assertProp(c *Term, label, pos string) {
 	st.Checked++
 	nc := e.ts.Not(c)
 	e.sol.Push()
+	e.sol.Prepare(e.vecTerms())
 	e.sol.Assert(nc)
 	r := e.sol.Check()
 	if r == Unknown {
@@ -584,6 +587,7 @@ func (e *Exec) softViolation(label, pos string) {
 		}
 	}
 	var model []uint64
+	e.sol.Prepare(e.vecTerms())
 	if e.sol.Check() == Sat {
 		model = e.sol.GetTermValues(e.vecTerms())
 	} else {
@@ -635,6 +639,7 @@ func (e *Exec) runPath(fn *ssa.Function, prefix []int64) (res *PathResult) {
 					res.status = "unwind"
 				} else {
 					res.status = "pruned"
+					res.where = e.where()
 				}
 				res.why = x.why
 			case targetPanic:
@@ -642,6 +647,7 @@ func (e *Exec) runPath(fn *ssa.Function, prefix []int64) (res *PathResult) {
 				res.why = x.msg + " @ " + x.pos
 				// a feasible path (pc is sat by construction) reaches a Go panic
 				var model []uint64
+				e.sol.Prepare(e.vecTerms())
 				if e.sol.Check() == Sat {
 					model = e.sol.GetTermValues(e.vecTerms())
 				} else {
@@ -653,6 +659,7 @@ func (e *Exec) runPath(fn *ssa.Function, prefix []int64) (res *PathResult) {
 				res.status = "hang"
 				res.why = x.where
 				var model []uint64
+				e.sol.Prepare(e.vecTerms())
 				if e.sol.Check() == Sat {
 					model = e.sol.GetTermValues(e.vecTerms())
 				} else {
@@ -673,6 +680,7 @@ func (e *Exec) runPath(fn *ssa.Function, prefix []int64) (res *PathResult) {
 	e.call(nil, 0, fn, nil)
 	res.status = "completed"
 	if e.wantWitness != nil && e.wantWitness() {
+		e.sol.Prepare(e.vecTerms())
 		if e.sol.Check() == Sat {
 			model := e.sol.GetTermValues(e.vecTerms())
 			res.witVec = e.vector(model)
@@ -802,6 +810,7 @@ func (rs *runState) worker(e *Exec, fn *ssa.Function) {
 			r.Completed++
 		case "pruned":
 			r.Pruned++
+			r.PanicWhere["pruned: "+pr.why+" @ "+pr.where]++
 		case "panic":
 			r.Panics++
 			r.PanicWhere[pr.why]++
